@@ -668,7 +668,6 @@ Proof.
   assert (H0 : r_env s0 = r_env s).
   { unfold poll in Hp. injection Hp as _ <-. reflexivity. }
   destruct cancelled; [right; split; [exact H0|ep_solve]|]. cbv zeta.
-  match goal with |- env_eq _ _ _ (if ?c then _ else _) => destruct c end; [exact I|].
   match goal with |- env_eq _ _ _ (match rec ?cc ?ss with _ => _ end) =>
     pose proof (Hrec cc ss) as H; simp; destruct (rec cc ss) as [s2|e s2|a] end; [|  |exact I].
   - call_rec (r_env s).
